@@ -45,7 +45,7 @@ def registry():
 
 
 def proof_items():
-    from contracts import map_run, run
+    from contracts import map_run, run, small
     from props.C07 import _call_nk, _nk_gen
     from props.C08 import _okey_gen
     return [
@@ -63,6 +63,9 @@ def proof_items():
         # from the store, else default; and how one result is split over the function's output names
         ProofItem(map_run.func_kwargs, gen=map_run.fk_gen),
         ProofItem(map_run.pick_output, gen=map_run.po_gen),
+        # the sizes of function-supplied axes: the caller's entries plus the shapes declared on the functions
+        ProofItem(small.construct_internal_shapes, gen=small.cis_gen,
+                  registry=lambda: {**{c.short: c for c in small.INTERNAL_SHAPES}, **{c.name: c for c in small.INTERNAL_SHAPES}}),
     ]
 
 
